@@ -258,14 +258,14 @@ int main(int argc, char** argv) {
             /* args ABI [ptrs buf nptrbytes nbufbytes]: where the guest wants the pointer array and the strings (default BIG, BIG + 0x1000) */
             U32 pa = nt > 5 ? (U32)strtoul(tok[2], 0, 10) : BIG, ba = nt > 5 ? (U32)strtoul(tok[3], 0, 10) : BIG + 0x1000;
             if (nt > 5) { U32 np = (U32)strtoul(tok[4], 0, 10), nb = (U32)strtoul(tok[5], 0, 10); memset(mem->data + pa, 0xEE, np); memset(mem->data + ba, 0xEE, nb); }
-            else memset(mem->data + BIG, 0xEE, 0x4000);
+            else memset(mem->data + BIG, 0xEE, 0x40000);
             memcpy(before, mem->data, MEMSIZE); err = CALL(abi, args_get, (NULL, pa, ba)); }
         else if (!strcmp(cmd, "envsizes")) err = CALL(abi, environ_sizes_get, (NULL, R1, R2));
         else if (!strcmp(cmd, "env")) {
             /* env ABI [ptrs buf nptrbytes nbufbytes]: where the guest wants the pointer array and the strings (default BIG, BIG + 0x1000) */
             U32 pa = nt > 5 ? (U32)strtoul(tok[2], 0, 10) : BIG, ba = nt > 5 ? (U32)strtoul(tok[3], 0, 10) : BIG + 0x1000;
             if (nt > 5) { U32 np = (U32)strtoul(tok[4], 0, 10), nb = (U32)strtoul(tok[5], 0, 10); memset(mem->data + pa, 0xEE, np); memset(mem->data + ba, 0xEE, nb); }
-            else memset(mem->data + BIG, 0xEE, 0x4000);
+            else memset(mem->data + BIG, 0xEE, 0x40000);
             memcpy(before, mem->data, MEMSIZE); err = CALL(abi, environ_get, (NULL, pa, ba)); }
         else if (!strcmp(cmd, "bigargs") || !strcmp(cmd, "bigenv")) {
             /* bigargs|bigenv ABI ptrs buf: the same calls in a memory of 65536 pages (4 GiB of address space, reserved, touched only where
